@@ -12,7 +12,6 @@ package main
 //                         is captured and searched for every textual form of the client address.
 
 import (
-	"bufio"
 	"bytes"
 	"encoding/hex"
 	"encoding/json"
@@ -24,7 +23,6 @@ import (
 	"os"
 	"path/filepath"
 	"regexp"
-	"strconv"
 	"strings"
 	"sync"
 	"syscall"
@@ -235,78 +233,8 @@ func (vtTransport) WrapConnection(data *bytes.Buffer, c net.Conn, dst net.IP, rm
 	return nil, nil, transports.ErrNotTransport
 }
 
-// ---------------------------------------------------------------- detector channel stand-in
-// The station publishes registration updates to redis on localhost:6379 while holding the registry lock; without a
-// server every publish costs the client's retry back-off.  A minimal RESP responder (PING, PUBLISH) keeps runs fast.
-// If the port is taken (another check's stand-in) that one serves just as well.
-func vtFakeRedis() (stop func()) {
-	var lns []net.Listener
-	for _, a := range []string{"127.0.0.1:6379", "[::1]:6379"} {
-		ln, err := net.Listen("tcp", a)
-		if err != nil {
-			continue
-		}
-		lns = append(lns, ln)
-		go func(ln net.Listener) {
-			for {
-				c, err := ln.Accept()
-				if err != nil {
-					return
-				}
-				go vtServeRESP(c)
-			}
-		}(ln)
-	}
-	return func() {
-		for _, ln := range lns {
-			ln.Close()
-		}
-	}
-}
-
-func vtServeRESP(c net.Conn) {
-	defer c.Close()
-	r := bufio.NewReader(c)
-	for {
-		line, err := r.ReadString('\n')
-		if err != nil {
-			return
-		}
-		line = strings.TrimSpace(line)
-		if !strings.HasPrefix(line, "*") {
-			continue
-		}
-		n, _ := strconv.Atoi(line[1:])
-		args := make([]string, 0, n)
-		for i := 0; i < n; i++ {
-			hdr, err := r.ReadString('\n')
-			if err != nil {
-				return
-			}
-			l, _ := strconv.Atoi(strings.TrimSpace(hdr)[1:])
-			buf := make([]byte, l+2)
-			if _, err := io.ReadFull(r, buf); err != nil {
-				return
-			}
-			args = append(args, string(buf[:l]))
-		}
-		if len(args) == 0 {
-			continue
-		}
-		switch strings.ToLower(args[0]) {
-		case "ping":
-			c.Write([]byte("+PONG\r\n"))
-		case "publish":
-			c.Write([]byte(":1\r\n"))
-		default:
-			c.Write([]byte("+OK\r\n"))
-		}
-	}
-}
-
 // ---------------------------------------------------------------- world
 type vtWorld struct {
-	stopRedis func()
 	rm        *cj.RegistrationManager
 	cm        *connManager
 	reg       *cj.DecoyRegistration
@@ -322,7 +250,6 @@ type vtWorld struct {
 
 func vtSetup(t *testing.T) *vtWorld {
 	w := &vtWorld{origOut: os.Stdout, dir: t.TempDir(), noRegDst: net.ParseIP("192.0.2.200")}
-	w.stopRedis = vtFakeRedis()
 	var err error
 	w.global, err = os.Create(filepath.Join(w.dir, "global.log"))
 	if err != nil {
@@ -337,6 +264,7 @@ func vtSetup(t *testing.T) *vtWorld {
 		t.Fatalf("NewRegistrationManager failed")
 	}
 	w.rm.GeoIP = &MockGeoIP{}
+	cj.VerifTaintMuteDetector(w.rm) // overlay bridge (harness/pkg_station_lib/taint_bridge_verif.go): no redis needed
 	w.cm = newConnManager(nil)
 	sharedLogger = w.rm.Logger
 	if err := w.rm.AddTransport(pb.TransportType_Min, min.Transport{}); err != nil {
@@ -395,7 +323,6 @@ func (w *vtWorld) teardown() {
 	golog.SetOutput(os.Stderr)
 	w.covert.Close()
 	w.global.Close()
-	w.stopRedis()
 }
 
 type vtCase struct {
